@@ -34,7 +34,7 @@ THEOREMS = [
     dict(name="Snow.C19.update_lookup", clause="a custom file overrides exactly the entries it names, every other entry keeps its default (u inside the default key tree)", strength="full"),
     dict(name="Snow.C19.update_idempotent", clause="applying the same custom file twice changes nothing", strength="full"),
     dict(name="Snow.C19.reported_spec", clause="the reported set is keys(custom) minus keys(default), key names at any depth", strength="full"),
-    dict(name="Snow.C19.unknown_keys_inert", clause="unknown keys at any depth change no derived constant and no exception", strength="full"),
+    dict(name="Snow.C19.unknown_keys_inert", clause="unknown keys at any depth change no derived constant and no exception (hypothesis hK: every path calculateDerived reads uses key names of the default file - proved for the shipped default in default_read_paths_known)", strength="full"),
     dict(name="Snow.C19.layering_exact", clause="layering with unknown keys present (edge case 'valid key in the wrong place' as a hypothesis)", strength="full"),
     dict(name="Snow.C19.partial_file_loads", clause="a partial file (inside the default key tree once unknown names are removed) never makes _loadConfig raise", strength="full"),
     dict(name="Snow.C19.unknown_keys_inert_file", clause="whole load: file and file without its unknown keys give the same constants or the same exception", strength="full"),
@@ -61,8 +61,13 @@ THEOREMS = [
     dict(name="Snow.C19.derived_spatial", clause="conductivities present exactly in the spatial models", strength="full"),
     dict(name="Snow.C19.enumeration_table", clause="well-typed configuration: raises iff outside the explicit decision table, and then NotImplementedError", strength="full"),
     dict(name="Snow.C19.supported_of_ok", clause="constants are never returned outside the decision table (no typing hypothesis)", strength="full"),
-    dict(name="Snow.C19.no_late_rejection", clause="Snowing.run's dispatch on dimensionality takes a branch on every successful load", strength="full"),
+    dict(name="Snow.C19.no_late_rejection", clause="never later, as far as modelled: Snowing.run's if/elif dispatch on const[dimensionality] takes a branch on every successful load; the later uses of vial_arrangement (Snowflake topology: C09) and of configuration inside the Snowing loops are NOT part of this theorem", strength="partial"),
     dict(name="Snow.C19.dispatch_total", clause="the dispatch is total on the decision table", strength="full"),
+    dict(name="Snow.C19.derived_present", clause="the thirty always-returned constants are present in the returned dict (num/str are totalised to 0/'' only for absent keys)", strength="full"),
+    dict(name="Snow.C19.default_read_paths_known", clause="hK holds for the shipped default file (GENERATED tree Gen.defaultCfg): calculateDerived reads only paths made of default key names", strength="full"),
+    dict(name="Snow.C19.default_welltyped", clause="the shipped default configuration is well-typed", strength="witness"),
+    dict(name="Snow.C19.default_ok", clause="inhabitation: calculateDerived returns constants for the shipped default configuration (hypothesis of all derived_*, supported_of_ok, no_late_rejection)", strength="witness"),
+    dict(name="Snow.C19.default_visf_homogeneous_rejected", clause="inhabitation of the rejecting side: default numbers with VISF + homogeneous are well-typed and raise NotImplementedError", strength="witness"),
     dict(name="Snow.C19.nonvacuous", clause="hypotheses are satisfiable (concrete default/custom pair)", strength="nonvacuity"),
 ]
 TRUSTED = [
@@ -73,6 +78,11 @@ TRUSTED = [
     "hand-written model SnowModel/Config.lean of _loadConfig/_getAllKeys/_nestedDictUpdate, tied by this differential check",
 ]
 ASSUMPTIONS = [
+    "hK (unknown_keys_inert, unknown_keys_inert_file): the paths read by the generated calculateDerived consist of key "
+    "names of the default file; proved in Lean for the shipped default file (default_read_paths_known, on the tree "
+    "GENERATED from snowConfig_default.yaml on every run) and re-checked by the harness case 'meta'",
+    "no_late_rejection models Snowing.run's dispatch on dimensionality only; uses of arrangement/configuration/shape "
+    "further downstream are covered by other properties' models (C09 topology, Snowing loops), not here",
     "custom files are YAML mappings with string keys and scalar / mapping values (lists, dates, non-string keys are outside the generator)",
     "well-formed trees: keys of one mapping are distinct (always true for a loaded Python dict)",
     "update_lookup / layering_exact: the custom file (after removing unknown names) lies inside the default key tree; "
@@ -107,6 +117,7 @@ LEVEL_TEXT = (
 
 def regenerate():
     translate.regenerate_derived()
+    translate.regenerate_default_cfg()
 
 
 # ---------------------------------------------------------------------------
@@ -745,6 +756,10 @@ MALFORMED = [
     ("scalar-over-mapping-str", "vial:\n  geometry: big\n"),
     ("mapping-over-scalar", "solution:\n  T_eq:\n    value: 3\n"),
     ("empty-mapping-over-scalar", "solution:\n  T_eq: {}\n"),
+    ("nested-mapping-over-scalar", "solution:\n  T_eq:\n    a:\n      b: 1\n"),          # AttributeError: float.get
+    ("mixed-mapping-over-scalar", "solution:\n  T_eq:\n    x: 1\n    a:\n      b: 1\n"),   # TypeError first
+    ("nested-mapping-over-text", "vial:\n  geometry:\n    shape:\n      a:\n        b: 1\n"),
+    ("nested-mapping-over-scalar-late", "water:\n  cp_w: 1\nsolution:\n  T_eq:\n    a: {}\n"),
     ("null-number", "water:\n  cp_w: ~\n"),
     ("null-enum", "snowing_parameters:\n  configuration: ~\n"),
     ("null-shape", "vial:\n  geometry:\n    shape: ~\n"),
